@@ -35,7 +35,12 @@ type GenOpts struct {
 }
 
 var dirPool = []string{"", "", "a", "a/b", "c", "a/b/d", "e"}
-var namePool = []string{"f0", "f1", "f2", "f3", "f4", "f5", "f6", "f7", "x", "x.dat", "lib.so", "data.bin", "F0", "X", "Data.bin"}
+var namePool = []string{"f0", "f1", "f2", "f3", "f4", "f5", "f6", "f7", "x", "x.dat", "lib.so", "data.bin", "F0", "X", "Data.bin",
+	// a name close to the 255-byte limit of a path component, and names that look like the temporary
+	// names an implementation might derive from other names
+	longName, "f1.butler-rename-1", ".butler-rename-1", ".butler-rename-2"}
+
+var longName = "L" + strings.Repeat("o", 243) + "g"
 
 func joinPath(d, n string) string {
 	if d == "" {
